@@ -83,6 +83,36 @@ def boundary_cases():
     for arity in range(1, 6):
         for pos in range(arity):
             out.append((prims[:arity], vals[pos], {"union_arity_%d" % arity, "union_pos_%d" % pos}))
+    # integers at the edge of int32 / int64 under unions whose branches differ exactly there
+    for v in ((1 << 31) - 1, 1 << 31, -(1 << 31), -(1 << 31) - 1, (1 << 63) - 1, -(1 << 63)):
+        for u in (["int", "long"], ["null", "int", "long"], ["int", "string", "long"], ["int", "double"]):
+            out.append((u, v, {"union_int_edge"}))
+            out.append(({"type": "record", "name": "Edge", "fields": [{"name": "u", "type": u}, {"name": "t", "type": "int"}]}, {"u": v, "t": -1}, {"union_int_edge"}))
+    for v in (1 << 63, -(1 << 63) - 1, 1 << 70):
+        out.append((["int", "long", "double"], v, {"union_int_edge"}))
+    # a wide union: branch indices on both sides of the one-byte / two-byte varint boundary (64) and of 128
+    wide = ["null", "boolean", "string", {"type": "array", "items": "long"}]
+    wide += [{"type": "fixed", "name": "F%d" % k, "size": k} for k in range(1, 61)]
+    wide += [{"type": "record", "name": "R%d" % k, "fields": [{"name": "f%d" % k, "type": "int"}]} for k in range(70)]
+    wide += [{"type": "enum", "name": "E", "symbols": ["only"]}]
+    for idx in (0, 1, 3, 62, 63, 64, 65, 100, 126, 127, 128, 129, 133, 134):
+        b = wide[idx]
+        if b == "null":
+            v = None
+        elif b == "boolean":
+            v = True
+        elif b == "string":
+            v = "only"  # a string conforms to the string branch before the enum
+        elif b["type"] == "array":
+            v = [1, 2]
+        elif b["type"] == "fixed":
+            v = bytes(range(b["size"]))
+        elif b["type"] == "record":
+            v = {b["fields"][0]["name"]: idx}
+        else:
+            v = ("E", "only")
+        out.append((wide, v, {"wide_union", "wide_union_idx_%d" % idx}))
+        out.append(({"type": "array", "items": wide}, [v, v], {"wide_union"}))
     # fixed of size 0 and enum extremes
     out.append(({"type": "fixed", "name": "Z", "size": 0}, b"", {"fixed_zero"}))
     out.append(({"type": "enum", "name": "E", "symbols": ["A", "B", "C"]}, "C", {"enum_last"}))
